@@ -26,9 +26,9 @@ func (w *world) doHandler(o opT) string {
 	u := w.u
 	var avp base.ACCEPTVoteproof
 	if o.Kind == "h-saveblock" || o.Maj {
-		avp = w.acceptVoteproof(o.Fact, o.H, o.NB)
+		avp = w.acceptVoteproof(o.Fact, o.H, o.Rd, o.NB)
 	} else {
-		vp := isaac.NewACCEPTVoteproof(base.NewPoint(base.Height(o.H), base.Round(0)))
+		vp := isaac.NewACCEPTVoteproof(base.NewPoint(base.Height(o.H), base.Round(uint64(o.Rd))))
 		vp.Finish() // no majority: DRAW
 		avp = vp
 	}
